@@ -31,6 +31,12 @@ def evaluate(ctx, body, e, env, counter, slots_field, params=None, depth=0):
         raise Unknown("depth")
     e = _norm(e)
     k = e[0]
+    if k in ("proj", "call"):
+        import c04
+        if c04.window_form(ctx, body, e) is not None:
+            # incoming - outgoing of an ordered collection = running + parked (C04 R4.1-R4.3, linked by the caller)
+            ctx._window_form_used = True
+            return env["r"] + env["p"]
     if k == "const":
         t = e[2]
         if t in ("0", "1") and e[1] == "bool":
